@@ -1,9 +1,12 @@
 package lab
 
 import (
+	"encoding/json"
+	"errors"
 	"fmt"
 	"io"
 	"log/slog"
+	"os"
 	"sort"
 	"sync"
 	"time"
@@ -133,6 +136,41 @@ type Lab struct {
 	// write-end events. The crash lab uses it for real kills.
 	onWriteEnd func(n int)
 	nWrites    int
+	// failWrite > 0: the failWrite-th storage update (creates not counted) is not carried out and returns an error
+	// (write-fault runs of C08, always in a child process: the engine's reaction is to exit).
+	failWrite int
+	nUpdates  int
+	// evlog, when set, receives one JSON line per event, written synchronously (the process may die at any moment).
+	evlog *os.File
+}
+
+// LogLine is the on-disk form of an event (write-fault child runs).
+type LogLine struct {
+	K       EvKind
+	Tag     string
+	N       int
+	Out     Outcome
+	Ctx     bool
+	Plan    int
+	WStatus workflow.Status
+	WAtt    int
+	WErr    bool
+	WCreate bool
+}
+
+// add appends an event to the log (l.mu must be held).
+func (l *Lab) add(e Event) {
+	l.events = append(l.events, e)
+	if l.evlog == nil {
+		return
+	}
+	ll := LogLine{K: e.Kind, Tag: e.Tag, N: e.N, Out: e.Out, Ctx: e.CtxDone, Plan: e.PlanIdx}
+	if e.W != nil {
+		ll.Tag, ll.WStatus, ll.WAtt, ll.WErr, ll.WCreate = e.W.Tag, e.W.State.Status, len(e.W.Attempts), e.W.Err != nil, e.W.Create
+	}
+	if b, err := json.Marshal(ll); err == nil {
+		l.evlog.Write(append(b, '\n'))
+	}
 }
 
 func newLab(sc *Scenario) *Lab {
@@ -149,7 +187,7 @@ func (l *Lab) note(format string, a ...any) {
 	defer l.mu.Unlock()
 	msg := fmt.Sprintf(format, a...)
 	l.notes = append(l.notes, msg)
-	l.events = append(l.events, Event{Kind: EvNote, Msg: msg, At: time.Since(l.start), PlanIdx: -1})
+	l.add(Event{Kind: EvNote, Msg: msg, At: time.Since(l.start), PlanIdx: -1})
 }
 
 func (l *Lab) enter(tag string, ref Ref, ctx context.Context) int {
@@ -162,7 +200,7 @@ func (l *Lab) enter(tag string, ref Ref, ctx context.Context) int {
 		l.openNonCont++
 		l.lastProgress = time.Now()
 	}
-	l.events = append(l.events, Event{Kind: EvEnter, Tag: tag, Ref: ref, N: n, CtxDone: ctx.Err() != nil, PlanIdx: ref.Plan, At: time.Since(l.start)})
+	l.add(Event{Kind: EvEnter, Tag: tag, Ref: ref, N: n, CtxDone: ctx.Err() != nil, PlanIdx: ref.Plan, At: time.Since(l.start)})
 	return n
 }
 
@@ -174,7 +212,7 @@ func (l *Lab) exit(tag string, ref Ref, n int, out Outcome, ctx context.Context)
 		l.openNonCont--
 		l.lastProgress = time.Now()
 	}
-	l.events = append(l.events, Event{Kind: EvExit, Tag: tag, Ref: ref, N: n, Out: out, CtxDone: ctx.Err() != nil, PlanIdx: ref.Plan, At: time.Since(l.start)})
+	l.add(Event{Kind: EvExit, Tag: tag, Ref: ref, N: n, Out: out, CtxDone: ctx.Err() != nil, PlanIdx: ref.Plan, At: time.Since(l.start)})
 }
 
 func (l *Lab) api(kind EvKind, planIdx int, err error) {
@@ -185,7 +223,7 @@ func (l *Lab) api(kind EvKind, planIdx int, err error) {
 		e.Err = " err=" + err.Error()
 	}
 	l.lastProgress = time.Now()
-	l.events = append(l.events, e)
+	l.add(e)
 }
 
 // park blocks the invocation until the controller releases it (or maxHold expires).
@@ -254,7 +292,7 @@ func (l *Lab) controller(stop <-chan struct{}) {
 			p := l.parked[idx]
 			l.parked = append(l.parked[:idx], l.parked[idx+1:]...)
 			l.lastProgress = time.Now()
-			l.events = append(l.events, Event{Kind: EvRelease, Tag: p.tag, N: p.n, PlanIdx: -1, At: time.Since(l.start)})
+			l.add(Event{Kind: EvRelease, Tag: p.tag, N: p.n, PlanIdx: -1, At: time.Since(l.start)})
 			close(p.ch)
 		}
 		l.mu.Unlock()
@@ -407,13 +445,25 @@ func (v *RecVault) record(w *WriteRec, f func() error) error {
 	if !w.Cont {
 		l.lastProgress = time.Now()
 	}
-	l.events = append(l.events, Event{Kind: EvWriteBegin, W: w, Tag: w.Tag, PlanIdx: w.PlanIdx, At: time.Since(l.start)})
+	l.add(Event{Kind: EvWriteBegin, W: w, Tag: w.Tag, PlanIdx: w.PlanIdx, At: time.Since(l.start)})
 	l.mu.Unlock()
 
 	if d := l.sc.WriteLatUs; d > 0 {
 		time.Sleep(time.Duration(d) * time.Microsecond)
 	}
-	err := f()
+	var err error
+	l.mu.Lock()
+	inject := false
+	if !w.Create {
+		l.nUpdates++
+		inject = l.failWrite > 0 && l.nUpdates == l.failWrite
+	}
+	l.mu.Unlock()
+	if inject {
+		err = errors.New("injected storage write failure")
+	} else {
+		err = f()
+	}
 
 	l.mu.Lock()
 	w2 := *w
@@ -421,7 +471,7 @@ func (v *RecVault) record(w *WriteRec, f func() error) error {
 	if !w.Cont {
 		l.lastProgress = time.Now()
 	}
-	l.events = append(l.events, Event{Kind: EvWriteEnd, W: &w2, Tag: w.Tag, PlanIdx: w.PlanIdx, At: time.Since(l.start)})
+	l.add(Event{Kind: EvWriteEnd, W: &w2, Tag: w.Tag, PlanIdx: w.PlanIdx, At: time.Since(l.start)})
 	l.nWrites++
 	n := l.nWrites
 	cb := l.onWriteEnd
